@@ -1,8 +1,63 @@
 PROPERTY = "C15"
 LEVEL = "proof"
-FUNCTIONS = ["precache (xfrm/istream.c)"]
-TRUSTED = []
-ASSUMPTIONS = []
+FUNCTIONS = [
+    "precache, xfrm_get_buffered_data (bounded), xfrm_advance_buffer",   # xfrm/istream.c
+    "flush_inbuf, xfrm_append, xfrm_flush",                              # xfrm/ostream.c
+    "process_data of gzip.c / xz.c / zstd.c / bzip2.c (bounded)",
+    "xfrm_compressor_id_from_magic",                                     # xfrm/compress.c
+    "tar_probe, tar_open_stream",                                        # tar/iterator.c
+]
+TRUSTED = [
+    "codec libraries (zlib inflate/deflate/*Reset, liblzma lzma_code/lzma_stream_*coder/lzma_end, libzstd "
+    "ZSTD_compressStream2/ZSTD_decompressStream/ZSTD_isError, libbz2 BZ2_bz(De)compress*): documented interface "
+    "only - consumed <= avail_in, produced <= avail_out, cursors advanced, documented return codes, failure "
+    "codes possible at every call, 'go on' implies progress where the library documents it "
+    "(adapter_gzip.c, adapter_xz.c, adapter_zstd.c, adapter_bzip2.c)",
+    "xfrm_stream_t.process_data as seen by the wrappers = contract c15_env.h (its clauses are the adapter "
+    "obligations C15.adapter.*; a compressor ends a stream only when flushing and within finitely many calls)",
+    "wrapped sqfs_istream_t = the contract proved for the file istream in C12 (any view length >= 1, < 4 GiB); "
+    "wrapped sqfs_ostream_t.append/flush: 0 or a negative error",
+    "memmove/memcpy/memset on the 256 KiB buffers: checking placement stubs; 64-bit byte counters do not wrap",
+]
+ASSUMPTIONS = [
+    "NOT decided: that the codecs invert each other, member concatenation inside the libraries, compression "
+    "levels, what reference decompressors accept - only the bookkeeping around the library calls is verified",
+    "xfrm/istream.c precache/xfrm_get_buffered_data: the refill loop is `for (;;)`, cbmc 6.11 silently drops loop "
+    "contracts on guard-less loops, so these two harnesses are bounded (all sequences of <= 3/5 codec calls per "
+    "precache); flush_inbuf, xfrm_append (loop contracts) and xfrm_flush/xfrm_advance_buffer (loop-free) are unbounded",
+    "codec adapters: bounded (all sequences of <= 3/5 library calls per process_data) so that findings fail a "
+    "named obligation with a replayable input",
+    "contents are tracked by placement of one arbitrary stream position per byte stream; payload never materialised",
+    "xfrm_flush requires the object invariant 'buffer empty ==> no compressed stream open' "
+    "(kept by xfrm_append: C15.out.inv; established by ostream_xfrm_create)",
+    "tar_open_stream is verified against the contracts of tar_probe and xfrm_compressor_id_from_magic, each proved "
+    "for every buffer up to 4 KiB; sqfs2tar/tar2sqfs main() glue is not covered",
+]
+EXPLANATION = ("wrapper obligations (feed once / deliver once / flush at EOF / END needed for EOF / trailer / conserve) "
+               "against an abstract codec contract that may consume and produce any amounts and return any status at "
+               "every call; the four adapters against assumed library contracts; stream routing against the format "
+               "specifications")
+
+import os as _os
+
+_REPO = _os.environ.get("VERIF_REPO", "/repo")
+
+
+def _has(relpath, word):
+    try:
+        return word in open(_os.path.join(_REPO, relpath)).read()
+    except OSError:
+        return False
+
+
+# struct fields that exist only once the proposed fixes are applied; the
+# harnesses then start from an arbitrary value of them (representation
+# invariant), otherwise from the state of a freshly created object
+_FEATURES = {}
+if _has("lib/xfrm/src/istream.c", "in_stream"):
+    _FEATURES["C15_HAVE_IN_STREAM"] = 1
+if _has("lib/xfrm/src/zstd.c", "frame_done"):
+    _FEATURES["C15_HAVE_FRAME_DONE"] = 1
 
 _FP_IN = {"get_buffered_data": "c15_in_get", "advance_buffer": "c15_in_advance",
           "get_filename": "c15_in_filename", "process_data": "c15_process_data"}
@@ -12,9 +67,14 @@ _FP_OUT = {"process_data": "c15_process_data", "append": "c15_out_append",
            "flush": "c15_out_flush", "get_filename": "c15_out_filename"}
 
 
+# flush_inbuf replaced by its contract (proved by out_flush_inbuf), body removed
+_REPL_FLUSH_INBUF = ["--replace-calls", "flush_inbuf:c15_flush_inbuf_contract",
+                     "--remove-function-body", "flush_inbuf"]
+
+
 def _h(name, loops=None, **kw):
     d = dict(name=name, file=name + ".c", label="proved", solver="cadical",
-             timeout=300)
+             timeout=300, defines=dict(_FEATURES))
     if loops:
         d["loops"] = loops
     d.update(kw)
@@ -46,6 +106,25 @@ HARNESSES = [
        cases=_calls(3, 5)),
     _h("in_advance", fp=_FP_IN),
     _h("out_flush_inbuf", ["flush_inbuf"], fp=_FP_OUT),
+    _h("out_append", ["xfrm_append"],
+       fp={"flush": "c15_out_flush", "get_filename": "c15_out_filename"},
+       pre_instrument_flags=_REPL_FLUSH_INBUF),
+    _h("out_flush", fp={"flush": "c15_out_flush", "get_filename": "c15_out_filename"},
+       pre_instrument_flags=_REPL_FLUSH_INBUF),
+    # loops bounded by constants of the code/format (4 table rows, 6 magic
+    # bytes, 512-byte record), unwound completely
+    _h("probe_magic", unwind=8),
+    _h("probe_tar", unwind=514, timeout=600),
+    _h("probe_open", malloc_fail=True,
+       fp={"get_buffered_data": "c15_src_get", "advance_buffer": "c15_src_advance",
+           "get_filename": "c15_src_filename"},
+       pre_instrument_flags=["--replace-calls", "tar_probe:c15_tar_probe_contract"]),
     _h("adapter_gzip", label="bounded(library calls per process_data <= 3)",
+       cases=_libcalls(3, 5)),
+    _h("adapter_xz", label="bounded(library calls per process_data <= 3)",
+       cases=_libcalls(3, 5)),
+    _h("adapter_bzip2", label="bounded(library calls per process_data <= 3)",
+       cases=_libcalls(3, 5)),
+    _h("adapter_zstd", label="bounded(library calls per process_data <= 3)",
        cases=_libcalls(3, 5)),
 ]
